@@ -232,6 +232,19 @@ def _observe(case, params, names, csvp, sd, outcome, log, notes):
             "ckpts": ck, "ntmp": nt, "log": log}
 
 
+def _met(case, e, j):
+    """metric handed to update_for_epoch: the grid value, optionally moved by a few 1e-8 (case["jit"]) - a raw value
+    that prints, under the history file's '{:.4e}', as the grid value itself.  The live process then holds a raw
+    metric that differs from what a restarted process reads back, while both must rank the epochs alike."""
+    base = case["mets"][e - 1][j] / SCALE
+    jit = case.get("jit")
+    if not jit:
+        return base
+    x = base + jit[e - 1][j] * 1e-8
+    assert float("{:.4e}".format(x)) == base, (x, base)
+    return x
+
+
 def _process(case, params, names, csvp, sd, ctr, crash_at, calls):
     """one process: new controller, continue after the last recorded epoch"""
     mets = case["mets"]
@@ -251,7 +264,7 @@ def _process(case, params, names, csvp, sd, ctr, crash_at, calls):
                 calls.append(inj.cur)
                 entry = [inj.cur, None]
                 log.append(entry)
-                cont = c.update_for_epoch(m, o, mets[e - 1][0] / SCALE, mets[e - 1][1] / SCALE,
+                cont = c.update_for_epoch(m, o, _met(case, e, 0), _met(case, e, 1),
                                           best_is_train=bool(case["bt"]), tag=ctr[0])
                 entry[1] = list(names.listing(sd))
                 inj.cur = None
@@ -290,7 +303,8 @@ _UNINT = {}
 
 
 def _base_key(case):
-    return json.dumps([case["klb"], case["fmt"], case["bt"], case.get("ctl", {}), case["mets"]], sort_keys=True)
+    return json.dumps([case["klb"], case["fmt"], case["bt"], case.get("ctl", {}), case["mets"], case.get("jit")],
+                      sort_keys=True)
 
 
 def _unint(case, workdir):
@@ -562,12 +576,14 @@ def gen_cases(chk):
     rng, cases = chk.rng, []
     thorough = chk.tier == "thorough"
 
-    def add(stream, klb, fmt, mets, crashes, bt=False, ctl=None, num_epochs=False):
+    def add(stream, klb, fmt, mets, crashes, bt=False, ctl=None, num_epochs=False, jit=None):
         ctl = dict(ctl or {})
         if num_epochs:
             ctl["num_epochs"] = len(mets)
         cases.append({"klb": klb, "fmt": fmt, "bt": bt, "mets": [list(m) for m in mets], "ctl": ctl,
                       "crashes": list(crashes), "stream": stream})
+        if jit is not None:
+            cases[-1]["jit"] = [list(j) for j in jit]
 
     # (a) every single crash point of every update of every small history
     L = 4 if thorough else 3
@@ -595,6 +611,21 @@ def gen_cases(chk):
             for k1 in range(tot):
                 for k2 in range(tot - k1 + 7):
                     add("exhaustive-double", klb, fmt, mets, [k1, k2])
+    # (b') raw metrics a few 1e-8 off the grid (they print as the grid value): ties and near-ties between what a live
+    #      process holds and what a restarted one reads back; every single crash point
+    jseqs = [((8, 8), (0, -2)), ((8, 8), (0, 3)), ((8, 8, 8), (0, -1, -3)), ((8, 4, 4), (2, 0, -4)), ((4, 8, 4), (0, 0, -2)),
+             ((8, 8, 12), (-3, -4, 0)), ((12, 8, 8, 8), (0, 1, -1, -2))]
+    if not thorough:
+        jseqs = jseqs[chk.seed % 2::2] + jseqs[:1]
+    for klb, fmt in ([(True, "ep"), (False, "ep"), (True, "e2")] if thorough else [(True, "ep")]):
+        for s, js in jseqs:
+            for bt in ([False, True] if thorough else [False]):
+                mets = [(v, v) for v in s]
+                jit = [(j, j) for j in js]
+                base = {"klb": klb, "fmt": fmt, "bt": bt, "mets": mets, "ctl": {}, "crashes": [], "jit": jit}
+                tot = total_calls(base, chk.workdir)
+                for k in [None] + list(range(tot)):
+                    add("jitter-single", klb, fmt, mets, [] if k is None else [k], bt=bt, jit=jit)
     # (c) random: longer histories, C15 parameter settings, several crashes
     nrand = 4000 if thorough else 400
     for _ in range(nrand):
@@ -623,7 +654,10 @@ def gen_cases(chk):
                 crashes.append(rng.randint(0, per))          # early in the next update
             else:
                 crashes.append(rng.randint(0, per * n))
-        add("random", klb, fmt, mets, crashes, bt=bt, ctl=ctl, num_epochs=rng.random() < 0.3)
+        jit = None
+        if not ctl and rng.random() < 0.4:   # decisions of C15 (thresholds) stay on the grid: no jitter with a ctl
+            jit = [(rng.choice([0, 0, -4, -2, -1, 1, 3]), rng.choice([0, 0, -4, -2, -1, 1, 3])) for _ in range(n)]
+        add("random", klb, fmt, mets, crashes, bt=bt, ctl=ctl, num_epochs=rng.random() < 0.3, jit=jit)
     return cases
 
 
@@ -649,9 +683,17 @@ def _cands(case):
     if len(case["mets"]) > 1:
         c = dict(case)
         c["mets"] = case["mets"][:-1]
+        if case.get("jit"):
+            c["jit"] = case["jit"][:-1]
         yield c
         c = dict(case)
         c["mets"] = case["mets"][1:]
+        if case.get("jit"):
+            c["jit"] = case["jit"][1:]
+        yield c
+    if case.get("jit"):
+        c = dict(case)
+        c.pop("jit")
         yield c
     if case.get("ctl"):
         c = dict(case)
@@ -726,6 +768,7 @@ def run(chk, cases=None):
         chk.count("fmt=" + c["fmt"])
         chk.count("crashes=%d" % len(c["crashes"]))
         chk.count("epochs=%d" % len(c["mets"]))
+        chk.count("raw_metrics=" + ("off-grid(1e-8)" if c.get("jit") else "grid"))
         if "error" in out:
             chk.count("outcome=harness-error")
         else:
